@@ -76,3 +76,10 @@ Definition w_err_partial : list expr :=
   [(EAssign (TVar (hx "79") []) (EOp OErr (EArr [ECall (hx "696e74") [EQExt PEvent [SField (hx "61")]];
                                                    EAssign (TVar (hx "78") []) (ELit (VInt 5))]) (ELit (VInt 0))));
    (EOp ODiv (ELit (VInt 10)) (EVar (hx "78")))].
+
+(* true && .i   on {i: -7} *)
+Definition w_and_true : list expr := [EOp OAnd (ELit (VBool true)) (EQExt PEvent [SField (hx "69")])].
+Definition ev_i_int : value := VObj [(hx "69", VInt (-7))].
+
+(* (1 / 0) / 7 *)
+Definition w_div_lhs : list expr := [EOp ODiv (EOp ODiv (ELit (VInt 1)) (ELit (VInt 0))) (ELit (VInt 7))].
